@@ -93,16 +93,16 @@ func runC09(c *Ctx) {
 	l.decoder("flv", "(*demuxer).ReadHeader", rv, withStream, retIndex("version", "hasVideo", "hasAudio"), 3)
 
 	l.decoder("flv", "(*demuxer).ReadTagHeader", []Variant{{
-		Name: "any",
-		Dom:  map[string]Dom{"type": {W: 8, Hi: -1}, "size": {W: 24, Hi: -1}, "ts": {W: 32, Hi: -1}},
-		Spec: abs.Cat(abs.Pack(abs.F("type", 7, 0)), abs.Pack(abs.F("size", 23, 0)), abs.Pack(abs.F("ts", 23, 0)), abs.Pack(abs.F("ts", 31, 24)), abs.Pack(abs.X(24))),
+		Name:   "any",
+		Dom:    map[string]Dom{"type": {W: 8, Hi: -1}, "size": {W: 24, Hi: -1}, "ts": {W: 32, Hi: -1}},
+		Spec:   abs.Cat(abs.Pack(abs.F("type", 7, 0)), abs.Pack(abs.F("size", 23, 0)), abs.Pack(abs.F("ts", 23, 0)), abs.Pack(abs.F("ts", 31, 24)), abs.Pack(abs.X(24))),
 		Fields: map[string]Want{"tagType": {Atom: "type", Width: 8}, "tagSize": {Atom: "size", Width: 24}, "timestamp": {Atom: "ts", Width: 32}},
 	}}, withStream, retIndex("tagType", "tagSize", "timestamp"), 3)
 
 	l.decoder("flv", "(*demuxer).ReadTag", []Variant{{
-		Name: "any",
-		Dom:  map[string]Dom{"tagSize": {W: 24, Hi: -1}},
-		Spec: abs.Cat(abs.BlobSpec("body", abs.LAtom("tagSize")), abs.Pack(abs.X(32))),
+		Name:   "any",
+		Dom:    map[string]Dom{"tagSize": {W: 24, Hi: -1}},
+		Spec:   abs.Cat(abs.BlobSpec("body", abs.LAtom("tagSize")), abs.Pack(abs.X(32))),
 		Fields: map[string]Want{"tag": {Blob: "body", Len: abs.LAtom("tagSize")}},
 	}}, withStream, retIndex("tag"), 1)
 
